@@ -31,6 +31,7 @@ type SolverOpts struct {
 	Seed         int
 	WantModel    bool
 	Batch        bool
+	Single       bool // one solver, one attempt (vacuity guards)
 }
 
 type solverDef struct {
@@ -162,7 +163,7 @@ func SolveOne(query string, o SolverOpts) SolveResult {
 	}
 	r := runSolver(order[0], query, ft, o.Seed, o.WantModel)
 	all[r.Solver] = r.Status
-	if r.Status == "sat" || r.Status == "unsat" {
+	if r.Status == "sat" || r.Status == "unsat" || o.Single {
 		r.All = all
 		return r
 	}
